@@ -60,7 +60,7 @@ def run(tier, seed):
                                   "nodes_created_by_them": g["tags"].get("xcopy.nodes", 0),
                                   "skipped_cyclic_or_huge": g["tags"].get("xcopy.skipped-cyclic-or-huge", 0)}},
         "assumptions": ['offsets below 2^62'],
-        "partial": ['types that hold references are rebuilt field-/item-wise: a theorem (C09_copy_shares_referents) for node classes (static structs of scalars, Ref and UnionRef fields) copied inside one buffer, and (C09_copy_into_other_buffer) copied into another buffer with all referents duplicated; references held in arrays / dynamic structs: executable heap model + oracle only; cyclic sources (RecursionError in the library) are not copied across buffers by the harness; HybridClass.copy() is covered under C18 (its reference clause - the copy's references resolve in the copy's buffer - is also reported here, key C09:hybrid-copy-*)'],
+        "partial": ['types that hold references are rebuilt field-/item-wise: a theorem (C09_copy_shares_referents) for node classes (static structs of scalars, Ref and UnionRef fields) copied inside one buffer, and (C09_copy_into_other_buffer) copied into another buffer with all referents duplicated; references held in arrays / dynamic structs: executable heap model + oracle only; cyclic sources (RecursionError in the library) are not copied across buffers by the harness; HybridClass.copy() is covered under C18 (its reference clause - references of the copy resolve in the buffer of the copy - is also reported here, key C09:hybrid-copy-*)'],
     }
 
 
